@@ -1,12 +1,38 @@
 package main
 
+// Replay of solver counterexamples against the real code.
+//
+// A sat obligation of kind post / safety in a function whose parameters are
+// all scalars (machine integers, floats, bools, enums, or `any` holding one of
+// those) is replayed by an in-package test injected with `go test -overlay`
+// (nothing is written into /repo): the real function is called on the model's
+// inputs, its observed results are pinned in a fresh VC together with the
+// inputs, and the failed contract clause is evaluated by the solver on those
+// concrete values. Only if the clause is false on the observed behaviour (or
+// the call panics, for safety obligations) is the violation confirmed.
+// Everything else is reported with no-failing-input-found.
+
 import (
+	"encoding/json"
 	"fmt"
+	"go/types"
+	"math"
+	"math/big"
 	"os"
+	"os/exec"
+	"path/filepath"
+	"strconv"
+	"strings"
+
+	"golang.org/x/tools/go/ssa"
 )
 
-// tryReplay attempts to confirm a sat obligation on the real code.
 func tryReplay(w *world, ob *Obligation, rp *replayFile) bool {
+	defer func() {
+		if r := recover(); r != nil {
+			rp.Note = fmt.Sprintf("replay aborted: %v", r)
+		}
+	}()
 	return replayObligation(w, ob, rp)
 }
 
@@ -18,17 +44,453 @@ func cmdReplay(args []string) int {
 	return replayFromFile(args[0])
 }
 
-func replayObligation(w *world, ob *Obligation, rp *replayFile) bool {
-	rp.Note = "no replay template for this obligation kind yet"
-	return false
-}
-
 func replayFromFile(path string) int {
 	b, err := os.ReadFile(path)
 	if err != nil {
 		fmt.Fprintln(os.Stderr, err)
 		return 2
 	}
-	fmt.Println(string(b))
+	var rp replayFile
+	if err := json.Unmarshal(b, &rp); err != nil {
+		fmt.Fprintln(os.Stderr, err)
+		return 2
+	}
+	fmt.Printf("obligation: %s\nverdict: %s (%s)\nclause: %s\n", rp.Obligation, rp.Verdict, rp.Solver, rp.Text)
+	if rp.ReplayTest == "" {
+		fmt.Println("no replay test was generated for this obligation:", rp.Note)
+		return 0
+	}
+	// re-run the stored test against the current tree
+	out, err := runOverlayTest(rp.ReplayPkgDir, rp.ReplayTest)
+	fmt.Println(out)
+	if err != nil {
+		fmt.Println("replay run:", err)
+	}
+	if rp.Confirmed {
+		fmt.Println("the recorded run confirmed the violation on the real code")
+		return 1
+	}
 	return 0
+}
+
+// parseModel turns "((a 1) (b (- 2)))" into a map.
+func parseModel(s string) map[string]string {
+	out := map[string]string{}
+	s = strings.TrimSpace(s)
+	if !strings.HasPrefix(s, "(") {
+		return out
+	}
+	parts := splitSexp(s[1 : len(s)-1])
+	for _, p := range parts {
+		p = strings.TrimSpace(p)
+		if !strings.HasPrefix(p, "(") {
+			continue
+		}
+		kv := splitSexp(p[1 : len(p)-1])
+		if len(kv) == 2 {
+			out[kv[0]] = kv[1]
+		}
+	}
+	return out
+}
+
+func smtInt(v string) (*big.Int, bool) {
+	v = strings.TrimSpace(v)
+	switch {
+	case strings.HasPrefix(v, "(- "):
+		n, ok := new(big.Int).SetString(strings.TrimSuffix(v[3:], ")"), 10)
+		if !ok {
+			return nil, false
+		}
+		return n.Neg(n), true
+	case strings.HasPrefix(v, "#x"):
+		n, ok := new(big.Int).SetString(v[2:], 16)
+		return n, ok
+	case strings.HasPrefix(v, "#b"):
+		n, ok := new(big.Int).SetString(v[2:], 2)
+		return n, ok
+	case strings.HasPrefix(v, "(_ bv"):
+		f := strings.Fields(v[5:])
+		n, ok := new(big.Int).SetString(f[0], 10)
+		return n, ok
+	}
+	n, ok := new(big.Int).SetString(v, 10)
+	return n, ok
+}
+
+func smtFloat(v string) (float64, bool) {
+	v = strings.TrimSpace(v)
+	switch {
+	case strings.HasPrefix(v, "(fp "):
+		f := splitSexp(v[4 : len(v)-1])
+		if len(f) != 3 {
+			return 0, false
+		}
+		bits := ""
+		for _, p := range f {
+			switch {
+			case strings.HasPrefix(p, "#b"):
+				bits += p[2:]
+			case strings.HasPrefix(p, "#x"):
+				n, _ := new(big.Int).SetString(p[2:], 16)
+				bits += fmt.Sprintf("%0*b", 4*(len(p)-2), n)
+			default:
+				return 0, false
+			}
+		}
+		u, err := strconv.ParseUint(bits, 2, 64)
+		if err != nil {
+			return 0, false
+		}
+		return math.Float64frombits(u), true
+	case strings.HasPrefix(v, "(_ +zero"):
+		return 0, true
+	case strings.HasPrefix(v, "(_ -zero"):
+		return math.Copysign(0, -1), true
+	case strings.HasPrefix(v, "(_ +oo"):
+		return math.Inf(1), true
+	case strings.HasPrefix(v, "(_ -oo"):
+		return math.Inf(-1), true
+	case strings.HasPrefix(v, "(_ NaN"):
+		return math.NaN(), true
+	}
+	return 0, false
+}
+
+func goFloatLit(f float64) string {
+	return fmt.Sprintf("math.Float64frombits(0x%x)", math.Float64bits(f))
+}
+
+// goLiteral renders a model value as a Go expression of type t.
+func goLiteral(v string, t types.Type, qual types.Qualifier, bv bool) (string, bool) {
+	ts := types.TypeString(t, qual)
+	if w, signed, ok := intInfo(t); ok {
+		n, ok := smtInt(v)
+		if !ok {
+			return "", false
+		}
+		if bv && signed {
+			half := new(big.Int).Lsh(big.NewInt(1), uint(w-1))
+			if n.Cmp(half) >= 0 {
+				n.Sub(n, new(big.Int).Lsh(big.NewInt(1), uint(w)))
+			}
+		}
+		return fmt.Sprintf("%s(%s)", ts, n.String()), true
+	}
+	switch {
+	case isBool(t):
+		return v, v == "true" || v == "false"
+	case isFloat(t):
+		f, ok := smtFloat(v)
+		if !ok {
+			return "", false
+		}
+		return fmt.Sprintf("%s(%s)", ts, goFloatLit(f)), true
+	case isEmptyInterface(t):
+		v = strings.TrimSpace(v)
+		switch {
+		case v == "ANil":
+			return "any(nil)", true
+		case strings.HasPrefix(v, "(ABool "):
+			return "any(" + strings.TrimSuffix(v[7:], ")") + ")", true
+		case strings.HasPrefix(v, "(AI64 "):
+			n, ok := smtInt(strings.TrimSuffix(v[6:], ")"))
+			if !ok {
+				return "", false
+			}
+			if bv && n.Cmp(new(big.Int).Lsh(big.NewInt(1), 63)) >= 0 {
+				n.Sub(n, new(big.Int).Lsh(big.NewInt(1), 64))
+			}
+			return fmt.Sprintf("any(int64(%s))", n), true
+		case strings.HasPrefix(v, "(AF64 "):
+			f, ok := smtFloat(strings.TrimSuffix(v[6:], ")"))
+			if !ok {
+				return "", false
+			}
+			return "any(" + goFloatLit(f) + ")", true
+		}
+	}
+	return "", false
+}
+
+type replayPlan struct {
+	fn      *ssa.Function
+	pkgDir  string
+	pkgName string
+	args    []string
+}
+
+func (w *world) findFunc(name string) (*ssa.Function, *Contract) {
+	for _, c := range w.allTargets() {
+		if c.Key == name && c.Fn != nil {
+			return c.Fn, c
+		}
+	}
+	return nil, nil
+}
+
+func replayObligation(w *world, ob *Obligation, rp *replayFile) bool {
+	if ob.Kind != "post" && ob.Kind != "safety" {
+		rp.Note = "no replay for obligations of kind " + ob.Kind + " (only post and safety obligations of scalar-parameter functions are replayed)"
+		return false
+	}
+	fn, c := w.findFunc(ob.Func)
+	if fn == nil || fn.Pkg == nil {
+		rp.Note = "function not found for replay"
+		return false
+	}
+	if fn.Signature.Recv() != nil {
+		rp.Note = "methods with a heap receiver are not replayed (the model's heap cannot be rebuilt generically)"
+		return false
+	}
+	bv := c != nil && c.BV
+	model := parseModel(ob.Model)
+	qual := func(p *types.Package) string {
+		if p == fn.Pkg.Pkg {
+			return ""
+		}
+		return p.Name()
+	}
+	var args []string
+	imports := map[string]bool{"testing": true, "fmt": true, "math": true, "errors": true}
+	for _, p := range fn.Params {
+		var val string
+		for k, v := range model {
+			if strings.HasPrefix(k, "p_"+sanitize(p.Name())+"!") {
+				val = v
+			}
+		}
+		if val == "" {
+			rp.Note = "model has no value for parameter " + p.Name()
+			return false
+		}
+		lit, ok := goLiteral(val, p.Type(), qual, bv)
+		if !ok {
+			rp.Note = fmt.Sprintf("parameter %s of type %s has a model value that cannot be rebuilt as a Go literal (%s)", p.Name(), p.Type(), truncate(val, 60))
+			return false
+		}
+		if n, ok := p.Type().(*types.Named); ok && n.Obj().Pkg() != nil && n.Obj().Pkg() != fn.Pkg.Pkg {
+			imports[n.Obj().Pkg().Path()] = true
+		}
+		args = append(args, lit)
+	}
+	// the test
+	var b strings.Builder
+	fmt.Fprintf(&b, "package %s\n\nimport (\n", fn.Pkg.Pkg.Name())
+	for im := range imports {
+		fmt.Fprintf(&b, "\t%q\n", im)
+	}
+	b.WriteString(")\n\nvar _ = math.Pi\nvar _ = errors.New\n\n")
+	b.WriteString("func govcShow(v any) string {\n\tswitch x := v.(type) {\n\tcase nil:\n\t\treturn \"nil\"\n\tcase error:\n\t\treturn fmt.Sprintf(\"error:%t:%t:%t\", errors.Is(x, ErrExecution), errors.Is(x, ErrVerbose), errors.Is(x, ErrInvalid))\n\tcase float64:\n\t\treturn fmt.Sprintf(\"float64:%d\", math.Float64bits(x))\n\tcase bool:\n\t\treturn fmt.Sprintf(\"bool:%t\", x)\n\t}\n\treturn fmt.Sprintf(\"%T:%d\", v, v)\n}\n\n")
+	b.WriteString("func TestGovcReplay(t *testing.T) {\n\tdefer func() {\n\t\tif r := recover(); r != nil {\n\t\t\tfmt.Printf(\"GOVC-PANIC %v\\n\", r)\n\t\t}\n\t}()\n")
+	n := fn.Signature.Results().Len()
+	var rs []string
+	for i := 0; i < n; i++ {
+		rs = append(rs, fmt.Sprintf("r%d", i))
+	}
+	call := fmt.Sprintf("%s(%s)", fn.Name(), strings.Join(args, ", "))
+	if n > 0 {
+		fmt.Fprintf(&b, "\t%s := %s\n", strings.Join(rs, ", "), call)
+		for i := range rs {
+			fmt.Fprintf(&b, "\tfmt.Printf(\"GOVC-RESULT %d %%s\\n\", govcShow(%s))\n", i, rs[i])
+		}
+	} else {
+		fmt.Fprintf(&b, "\t%s\n", call)
+	}
+	b.WriteString("\tfmt.Println(\"GOVC-RETURNED\")\n}\n")
+	src := b.String()
+	if fn.Pkg.Pkg.Name() != "exec" {
+		src = strings.ReplaceAll(src, "errors.Is(x, ErrExecution), errors.Is(x, ErrVerbose), errors.Is(x, ErrInvalid)", "false, false, false")
+	}
+	rp.ReplayTest = src
+	rel := strings.TrimPrefix(fn.Pkg.Pkg.Path(), modulePath)
+	rp.ReplayPkgDir = "." + rel
+	out, err := runOverlayTest(rp.ReplayPkgDir, src)
+	rp.ReplayOutput = truncate(out, 3000)
+	if err != nil && !strings.Contains(out, "GOVC-") {
+		rp.Note = "replay test did not run: " + err.Error()
+		return false
+	}
+	if ob.Kind == "safety" {
+		if strings.Contains(out, "GOVC-PANIC") {
+			rp.Confirmed = true
+			rp.Note = "the real function panics on the model's inputs"
+			return true
+		}
+		rp.Note = "the real function did not panic on the model's inputs"
+		return false
+	}
+	if strings.Contains(out, "GOVC-PANIC") {
+		rp.Confirmed = true
+		rp.Note = "the real function panics on the model's inputs (no result satisfies the postcondition)"
+		return true
+	}
+	// evaluate the clause on the observed results
+	ok := confirmClause(w, ob, fn, c, model, out, rp)
+	rp.Confirmed = ok
+	return ok
+}
+
+func runOverlayTest(pkgDir, src string) (string, error) {
+	dir, err := os.MkdirTemp("", "govc-replay-")
+	if err != nil {
+		return "", err
+	}
+	defer os.RemoveAll(dir)
+	testFile := filepath.Join(dir, "zz_govc_replay_test.go")
+	if err := os.WriteFile(testFile, []byte(src), 0o644); err != nil {
+		return "", err
+	}
+	abs, _ := filepath.Abs(filepath.Join(repoDir(), pkgDir))
+	ov := map[string]any{"Replace": map[string]string{filepath.Join(abs, "zz_govc_replay_test.go"): testFile}}
+	ob, _ := json.Marshal(ov)
+	ovFile := filepath.Join(dir, "ov.json")
+	_ = os.WriteFile(ovFile, ob, 0o644)
+	cmd := exec.Command("go", "test", "-overlay", ovFile, "-vet=off", "-count=1", "-timeout", "60s", "-run", "^TestGovcReplay$", pkgDir)
+	cmd.Dir = repoDir()
+	cmd.Env = append(os.Environ(), "GOFLAGS=-mod=mod", "GOPROXY=off", "GOSUMDB=off", "GOTOOLCHAIN=local")
+	outb, err := cmd.CombinedOutput()
+	return string(outb), err
+}
+
+// confirmClause pins inputs to the model and results to the observed values
+// and asks the solver whether the failed clause holds.
+func confirmClause(w *world, ob *Obligation, fn *ssa.Function, c *Contract, model map[string]string, out string, rp *replayFile) bool {
+	// find the clause
+	label := ob.Name[strings.LastIndex(ob.Name, "/post:")+len("/post:"):]
+	var cl *Clause
+	vcx := newVC("replay")
+	bv := c != nil && c.BV
+	x := &X{prog: w.prog, vc: vcx, enc: newEnc(vcx, bv, modulePath), db: w.db, top: fn, topC: c,
+		keys: map[string]keyInfo{}, closures: map[string]*ClosV{}, funcIDs: map[*ssa.Function]Term{},
+		module: modulePath, inlined: map[string]bool{}, havoced: map[string]bool{}, sentinel: w.sent,
+		callSeq: map[string]int{}, nilChecked: map[string]bool{}}
+	defer delete(entryDefaults, x)
+	for _, cc := range []*Contract{c, x.schematicFor(fn)} {
+		if cc == nil {
+			continue
+		}
+		for _, e := range cc.Ensures {
+			if clauseLabel(e) == label {
+				cl = e
+			}
+		}
+	}
+	if cl == nil {
+		rp.Note = "replay ran, but the failed clause is not a contract clause that can be re-evaluated (" + label + ")"
+		return false
+	}
+	if cl.internal() && !strings.HasPrefix(cl.Label, "local-") {
+		rp.Note = "the failed clause talks about the function's internal call trace; it cannot be re-evaluated from inputs and outputs alone"
+		return false
+	}
+	w.sent.declare(x)
+	st := &State{mem: map[string]Term{}, reach: tTrue}
+	x.get(st, x.allocKey())
+	x.entry = st.clone()
+	vars := map[string]SV{}
+	for _, p := range fn.Params {
+		v := vcx.fresh("p_"+p.Name(), x.enc.sortOf(p.Type()))
+		for k, mv := range model {
+			if strings.HasPrefix(k, "p_"+sanitize(p.Name())+"!") {
+				vcx.assume(mkEq(v, T(v.Sort, mv)))
+			}
+		}
+		vars[p.Name()] = v
+	}
+	res := fn.Signature.Results()
+	for _, ln := range strings.Split(out, "\n") {
+		if !strings.HasPrefix(ln, "GOVC-RESULT ") {
+			continue
+		}
+		f := strings.SplitN(strings.TrimPrefix(ln, "GOVC-RESULT "), " ", 2)
+		i, _ := strconv.Atoi(f[0])
+		if i >= res.Len() || len(f) < 2 {
+			continue
+		}
+		rt := res.At(i).Type()
+		rv := vcx.fresh(fmt.Sprintf("r%d", i), x.enc.sortOf(rt))
+		val := strings.TrimSpace(f[1])
+		kind, rest, _ := strings.Cut(val, ":")
+		switch {
+		case isErrorType(rt):
+			if val == "nil" {
+				vcx.assume(mkEq(rv, intLit(0)))
+			} else {
+				fl := strings.Split(rest, ":")
+				vcx.assume(mkNot(mkEq(rv, intLit(0))))
+				for j, nm := range []string{"exec.ErrExecution", "exec.ErrVerbose", "exec.ErrInvalid"} {
+					for _, sn := range w.sent.names {
+						if strings.HasSuffix(sn, nm) && j < len(fl) {
+							t := x.errorsIs(rv, T(SInt, sentName(sn)))
+							if fl[j] == "true" {
+								vcx.assume(t)
+							} else {
+								vcx.assume(mkNot(t))
+							}
+						}
+					}
+				}
+			}
+		case isFloat(rt):
+			u, _ := strconv.ParseUint(rest, 10, 64)
+			vcx.assume(app(SBool, "=", rv, x.enc.floatConst(math.Float64frombits(u), SF64)))
+		case isBool(rt):
+			vcx.assume(mkEq(rv, mkBool(rest == "true")))
+		case isEmptyInterface(rt):
+			switch kind {
+			case "nil":
+				vcx.assume(mkEq(rv, T(SAny, "ANil")))
+			case "int64":
+				n, _ := new(big.Int).SetString(rest, 10)
+				vcx.assume(mkEq(rv, app(SAny, "AI64", x.enc.intConstW(n, 64))))
+			case "float64":
+				u, _ := strconv.ParseUint(rest, 10, 64)
+				vcx.assume(mkEq(rv, app(SAny, "AF64", x.enc.floatConst(math.Float64frombits(u), SF64))))
+			case "bool":
+				vcx.assume(mkEq(rv, app(SAny, "ABool", mkBool(rest == "true"))))
+			default:
+				rp.Note = "observed result of a type the replay cannot pin: " + val
+				return false
+			}
+		default:
+			if wd, _, ok := intInfo(rt); ok {
+				n, ok2 := new(big.Int).SetString(rest, 10)
+				if !ok2 {
+					rp.Note = "cannot read observed integer " + val
+					return false
+				}
+				vcx.assume(mkEq(rv, x.enc.intConstW(n, wd)))
+			} else {
+				rp.Note = "observed result of a type the replay cannot pin: " + val
+				return false
+			}
+		}
+		vars[fmt.Sprintf("r%d", i)] = rv
+		if nme := res.At(i).Name(); nme != "" && nme != "_" {
+			vars[nme] = rv
+		}
+	}
+	env := &specEnv{x: x, st: st, old: x.entry, vars: vars, ovars: vars}
+	x.pure++
+	t, ok := x.evalClause(cl, fn, env, x.fnResolver(fn, nil))
+	x.pure--
+	if !ok {
+		rp.Note = "the clause could not be re-evaluated on the observed values"
+		return false
+	}
+	o := &Obligation{Name: "replay", Kind: "replay", Goal: t, vc: vcx, PrefixLen: len(vcx.cmds), DeclLen: len(vcx.decls)}
+	work, _ := os.MkdirTemp("", "govc-rp-")
+	defer os.RemoveAll(work)
+	o.discharge(runConfig{timeoutS: 20, solvers: []string{"z3-new", "z3"}, workdir: work}, 0)
+	switch o.Verdict {
+	case "sat":
+		rp.Note = "replayed on the real code: with the model's inputs the observed results falsify the clause (solver-evaluated)"
+		return true
+	case "unsat":
+		rp.Note = "replayed on the real code: the observed results satisfy the clause for these inputs (the model lives in an abstraction gap)"
+		return false
+	}
+	rp.Note = "replayed on the real code, but the solver could not evaluate the clause on the observed values (" + o.Verdict + ")"
+	return false
 }
